@@ -158,6 +158,7 @@ class MWorld:
                     nums = [x for x in vals if isinstance(x, float)]
                     if nums:
                         tgt.num = nums[0]
+                    tgt.is_string = isinstance(vals[0], str)        # set(string, number) makes a string token, set(number, string) a number token
                     return 0
             if isinstance(tgt, TNode):
                 return self.node_method(m, tgt, n, c)
@@ -176,7 +177,10 @@ class MWorld:
                     m.assign(strip_casts(c['obj']), a[0] if len(a) == 1 else a[0][a[1]:a[1] + a[2]])
                     return 0
             if n in ('getPooledString',):
-                return m.ev(c['args'][0])
+                v = m.ev(c['args'][0])
+                if len(c['args']) == 2 and isinstance(v, str):
+                    return v[:int(m.ev(c['args'][1]))]
+                return v
             if n == 'get' and 'GetCachedString' in cls:
                 return ''
             if n in ('getMemoryManager',):
@@ -323,6 +327,13 @@ class PWorld(MWorld):
                     tgt.items.reverse()
                     tgt.flag = {'document': 'reverse', 'reverse': 'document'}.get(tgt.flag, tgt.flag)
                     return 0
+                if n == 'setNode':
+                    i = int(m.ev(a[0]))
+                    if not (0 <= i < len(tgt.items)):
+                        raise Fault('setNode(%d) of a list of %d' % (i, len(tgt.items)))
+                    tgt.items[i] = m.ev(a[1]); return 0
+                if n == 'clearNulls':
+                    tgt.items = [x for x in tgt.items if isinstance(x, TNode)]; return 0
                 raise Unsupported('node list method ' + n)
             if n == 'getOwnerDocument' and isinstance(tgt, TNode):
                 return 0 if tgt.kind == 'doc' else self.doc
